@@ -602,8 +602,13 @@ impl Slot {
 // the entry as a submission queue entry, through the rusl constructors
 
 impl Slot {
-    pub fn to_sqe(&mut self, w: &World, link: bool) -> Sqe {
-        let lf = if link { IoUringSQEFlags::IOSQE_IO_LINK } else { IoUringSQEFlags::empty() };
+    /// `link`: 0 = no link flag, 1 = IOSQE_IO_LINK, 2 = IOSQE_IO_HARDLINK (both taken from the wrapper's table)
+    pub fn to_sqe(&mut self, w: &World, link: u8) -> Sqe {
+        let lf = match link {
+            1 => IoUringSQEFlags::IOSQE_IO_LINK,
+            2 => IoUringSQEFlags::IOSQE_IO_HARDLINK,
+            _ => IoUringSQEFlags::empty(),
+        };
         let ud = self.ud;
         let dfd = Some(fd_of(w.dfd));
         let pos = self.pos;
